@@ -7,5 +7,6 @@ export VERIF_DIR="$HERE"
 export CARGO_NET_OFFLINE=true
 mkdir -p "$HERE/out" "$HERE/evidence"
 (cd "$HERE/mc" && cargo build --release --offline --target-dir "$HERE/out/target")
+(cd "$HERE/mc" && cargo build --profile frames --offline --target-dir "$HERE/out/target")
 (cd "$HERE/mc" && cargo test --release --offline --quiet --target-dir "$HERE/out/target")
 "$HERE/out/target/release/rtcp-mc" selftest
